@@ -566,9 +566,11 @@ where
         return Err(OperationError::TooManyAuthors);
     }
 
-    if past_header.seq_num + 1 != header.seq_num {
+    // NOTE: The sequence number of the past header can be at its maximum (an operation with a
+    // prune flag is free to choose any), in which case no operation can follow it.
+    if past_header.seq_num.checked_add(1) != Some(header.seq_num) {
         return Err(OperationError::SeqNumNonIncremental(
-            past_header.seq_num + 1,
+            past_header.seq_num.saturating_add(1),
             header.seq_num,
         ));
     }
